@@ -17,7 +17,7 @@ RULE = ("MODE SELECT 6/10 x 4 pages x every field over its alphabet (k deviation
         "values x 1-2 pages per list, plus lists of 3-200 pages (MODE SELECT(10): across 255 bytes up to ~6 KB; MODE SELECT(6): up to 7 pages); PERSISTENT RESERVE OUT x service actions 0-8 x 64-bit key alphabets x flag products x 0-3 TransportIDs of 6 "
         "kinds x iSCSI name lengths 1..26 x format 00b/01b, REGISTER AND MOVE with/without TransportID; EXTENDED COPY LID1 and LID4 x header "
         "fields x 0-3 identification CSCD descriptors (NAA 5/6, EUI-64 8/12/16, T10 vendor id; block/tape/processor device types) x 0-3 segment "
-        "descriptors of each implemented type {00,01,02,0B,0C,0D} x inline data {0,1,5 bytes}; one caller dictionary re-used for two commands of every ordered pair of segment kinds; every list is built a second time from the same values presented differently (reversed key order in every dictionary, int-subclass integers, bytes<->bytearray) and must come out identical; and once with every list given as a one-shot iterator (refusal accepted, a silently different list is not). Non-trivial = any non-default value or "
+        "descriptors of each implemented type {00,01,02,0B,0C,0D} x inline data {0,1,5 bytes}; one caller dictionary re-used for two commands of every ordered pair of segment kinds; every list is built a second time from the same values presented differently (reversed key order in every dictionary, int-subclass integers, bytes<->bytearray) and must come out identical; and once with every list given as a one-shot iterator and once as a generator re-using one scratch dict for its elements (refusal accepted, a silently different list is not). Non-trivial = any non-default value or "
         "descriptor; distinct = distinct (command, dictionary).")
 ASSUMPTIONS = [
     "oracle: vf/spec/paramlists.py decoders (positions of SPC-4 6.3/6.14/7.5/7.6.4) over vf/spec/bits.py",
@@ -74,6 +74,24 @@ def iterize(x):
     return x
 
 
+def reyield(x):
+    """lists handed over as generators of a streaming producer that re-uses ONE scratch dict for every element (filled just before it
+    is yielded): each element is complete while the consumer holds it, as with a row cursor"""
+    if isinstance(x, dict):
+        return {k: reyield(v) for k, v in x.items()}
+    if isinstance(x, list):
+        if x and all(isinstance(v, dict) for v in x):
+            def gen(items=[reyield(v) for v in x]):
+                scratch = {}
+                for it in items:
+                    scratch.clear()
+                    scratch.update(it)
+                    yield scratch
+            return gen()
+        return iter([reyield(v) for v in x])
+    return x
+
+
 def same_list_iter(build, buf, tag, where):
     """where the library accepts an iterable in place of a list at all (it does for TransportID lists), it must see every element:
     a refusal (TypeError for len() of an iterator, ...) is not judged, a silently different list is"""
@@ -82,7 +100,7 @@ def same_list_iter(build, buf, tag, where):
     except Exception:   # noqa: BLE001
         return []
     if b2 != buf:
-        return [("%s/iterable_argument" % tag, "%s: with the descriptor lists given as one-shot iterators the library builds another list without complaint (%d bytes instead of %d)"
+        return [("%s/iterable_argument" % tag, "%s: with the descriptor lists given as one-shot iterators (or generators re-using one scratch dict per element) the library builds another list without complaint (%d bytes instead of %d)"
                  % (where, len(b2), len(buf)))]
     return []
 
@@ -144,6 +162,7 @@ def run_case(case, obs=None):
         if not out:
             out += same_list_again(lambda: CS.get_class(name)(opcode_of(name), represent(data), pf=represent(pf), sp=represent(sp)), buf, bytes(cmd.cdb), name, where)
             out += same_list_iter(lambda: CS.get_class(name)(opcode_of(name), iterize(data), pf=pf, sp=sp), buf, name, where)
+            out += same_list_iter(lambda: CS.get_class(name)(opcode_of(name), reyield(data), pf=pf, sp=sp), buf, name + "/scratch", where)
             # a page_0 format page described with its (non-existent) subpage spelled out as 00h: the same page, the same list
             data0 = copy.deepcopy(data)
             for mp in data0["mode_pages"]:
@@ -213,6 +232,7 @@ def run_case(case, obs=None):
                 kw2["transport_ids"] = copy.deepcopy(tids)
             out += same_list_again(lambda: CS.get_class(name)(opcode_of(name), sa, 0, 1, **represent(kw2)), buf, bytes(cmd.cdb), "prout", where)
             out += same_list_iter(lambda: CS.get_class(name)(opcode_of(name), sa, 0, 1, **iterize(kw2)), buf, "prout", where)
+            out += same_list_iter(lambda: CS.get_class(name)(opcode_of(name), sa, 0, 1, **reyield(kw2)), buf, "prout/scratch", where)
         return out + pll_check(name, cmd, where)
     if kind == "xcopy":
         _, ver, hdr, cscd_idx, seg_idx, inline_n = case
@@ -268,6 +288,7 @@ def run_case(case, obs=None):
             kw2["inline_data"] = bytearray(inline)
             out += same_list_again(lambda: CS.get_class(name)(opcode_of(name), **represent(kw2)), buf, bytes(cmd.cdb), "xcopy%d" % ver, where)
             out += same_list_iter(lambda: CS.get_class(name)(opcode_of(name), **iterize(kw2)), buf, "xcopy%d" % ver, where)
+            out += same_list_iter(lambda: CS.get_class(name)(opcode_of(name), **reyield(kw2)), buf, "xcopy%d/scratch" % ver, where)
         return out + pll_check(name, cmd, where)
     if kind == "xreuse":
         # the caller re-uses one segment dictionary for two commands of different descriptor kinds
